@@ -178,6 +178,11 @@ def mergeBT (shape : List BT → BT) : List BT → BT
 
 def leafBTs (N : Nat) : List BT := (List.range N).map BT.leaf
 
+/-- one admissible sub-optimizer: a left caterpillar over the items in the order given -/
+def caterpillar : List BT → BT
+  | [] => .leaf 0
+  | x :: rest => rest.foldl (fun acc y => .node acc y) x
+
 /-- `from_path(path=…, autocomplete=…)`: the live subtrees at the end -/
 def fromLinear (shape : List BT → BT) (N : Nat) (path : Path) (autocomplete : Bool) :
     Option (List BT) :=
